@@ -195,9 +195,20 @@ func stressResponseEncoder(c *collector, n, rounds int, seed uint64) {
 func stressRequestDecoder(c *collector, n, rounds int, seed uint64) {
 	for r := 0; r < rounds; r++ {
 		barrier(n, func(g int) {
-			for k := 0; k < 4; k++ {
+			for k := 0; k < 5; k++ {
 				id := fmt.Sprintf("d%d-%d-%d-%d", seed, r, g, k)
 				var body, ct string
+				if k == 4 {
+					// unsupported media type: the error must name this request's type
+					req := httptest.NewRequest("POST", "/", strings.NewReader("x"))
+					req.Header.Set("Content-Type", "application/x-"+id)
+					var v any
+					if err := goahttp.RequestDecoder(req).Decode(&v); err == nil || !strings.Contains(err.Error(), "application/x-"+id) {
+						c.fail("request-decoder-foreign-payload", fmt.Sprintf("unsupported media type error %v does not name application/x-%s", err, id), id)
+					}
+					c.eval(1)
+					continue
+				}
 				switch k % 3 {
 				case 0:
 					body, ct = fmt.Sprintf(`{"id":%q,"n":%d}`, id, g), "application/json"
@@ -364,10 +375,10 @@ func stressStreamCanceler(c *collector, n, rounds int, seed uint64) {
 		cancel()
 		// the flag is set by a goroutine woken by cancel(): give it the time it needs
 		ok := false
-		for i := 0; i < 5000 && !ok; i++ {
+		for deadline := time.Now().Add(20 * time.Second); !ok && time.Now().Before(deadline); {
 			ok = status.Code(ic("late", &fakeStream{ctx: context.Background()}, &grpc.StreamServerInfo{}, func(any, grpc.ServerStream) error { return nil })) == codes.Unavailable
 			if !ok {
-				time.Sleep(100 * time.Microsecond)
+				time.Sleep(200 * time.Microsecond)
 			}
 		}
 		if !ok {
@@ -427,7 +438,7 @@ func tierParams(tier string) (n, rounds int) {
 	if tier == "thorough" {
 		return 64, 40
 	}
-	return 16, 12
+	return 16, 40
 }
 
 // stressMain: -mode stress. Functional failures are printed as JSON; the race
